@@ -53,8 +53,8 @@ MANIFEST = {
     "design_ref": "DESIGN.md §6 C20",
 }
 
-KEY_REORDER = "GET/broker/queue:queue-reordered:queue-longer-than-limit"
-KEY_DROP = "GET/broker/queue:queue-lost:queued-id-without-record"
+KEY_REORDER = "GET/broker/queue:queue-reordered:queue-longer-than-limit:http200"
+KEY_DROP = "GET/broker/queue:queue-lost:queued-id-without-record:http500"
 
 IMPORTS = ["Model.Monitor", "gen.Routes_gen"]
 
@@ -190,7 +190,7 @@ class World:
                         continue      # the queue is read as the ordered id list above; sqlite_sequence is bookkeeping
                     rows = [canon(list(r)) for r in conn.execute(f"SELECT * FROM {t}")]
                     if rows:
-                        snap["table." + t] = sorted(rows, key=lambda r: json.dumps(r, sort_keys=True, default=str))
+                        snap["table." + t.split("__", 1)[-1]] = sorted(rows, key=lambda r: json.dumps(r, sort_keys=True, default=str))
             finally:
                 conn.close()
         return snap
@@ -332,7 +332,7 @@ def query_names(route_obj, module_name: str) -> dict[str, str]:
     return names
 
 
-def gen_requests(rng, w: World, method_path, route_obj, module_name, per_route: int) -> list[str]:
+def gen_requests(rng, w: World, method_path, route_obj, module_name, per_route: int, suspect: bool = False) -> list[str]:
     """URLs for one route: existing / purged / ghost / malformed ids, small and large limits."""
     path = method_path
     ids_with = [i for i in w.ids if w.has_record(i)]
@@ -379,6 +379,10 @@ def gen_requests(rng, w: World, method_path, route_obj, module_name, per_route: 
                 val = rng.choice(["SUCCESS", "FAILED", "REGISTERED", "bogus", ""])
             elif "expand" in name:
                 val = ",".join(rng.sample(w.ids, min(2, len(w.ids)))) if w.ids else ""
+            elif suspect:
+                # model-guided: the generated table says this route can reach a non-read method; free-text
+                # parameters are tried with the names of the mutating API methods as well
+                val = rng.choice(["purge", "retrieve_invocation", "auto_purge", "", "zzz"])
             else:
                 val = rng.choice(["", "1h", "15m", "zzz", "2020-01-01T00:00:00", "1"])
             if rng.random() < 0.8 or name == "limit":
@@ -474,7 +478,7 @@ def request_and_judge(ctx: Ctx, w: World, client, method_path: str, url: str, st
             cls = "queue-longer-than-limit"
         else:
             cls = "records-present-and-limit-covers-queue"
-        key = f"GET{method_path}:{classify_queue_change(qb, after['queue'])}:{cls}"
+        key = f"GET{method_path}:{classify_queue_change(qb, after['queue'])}:{cls}:http{code}"
         idx = {i: k for k, i in enumerate(w.ids)}
         what = (f"GET {url} ({w.kind}, HTTP {code}) changed the broker queue: before {[idx[i] for i in qb]} "
                 f"after {[idx[i] for i in after['queue']]} (ids numbered in creation order)")
@@ -568,7 +572,10 @@ def api_recipes(w: World):
         "AMeta": each(lambda c: (c.conf, c.__class__.__name__), [br, o, sb, tr, app.client_data_store, app.runner]),
     }
     if hasattr(br, "peek_invocations"):
-        rec["ABrokerPeek"] = each(lambda n: br.peek_invocations(n), [-1, 0, 1, 2, 1000])
+        from pynenc.broker.base_broker import BaseBroker
+        generic = getattr(BaseBroker, "peek_invocations", None)      # the backend-independent default, if any
+        rec["ABrokerPeek"] = each(lambda n: (br.peek_invocations(n), generic(br, n) if generic else None),
+                                  [-1, 0, 1, 2, 1000])
     return rec
 
 
@@ -670,6 +677,7 @@ def build_world(kind: str, scratch: str, ops: list) -> World:
 
 def main(ctx: Ctx) -> int:
     world.quiet()
+    warnings.filterwarnings("ignore")
     info = ctx.translate("routes", routes_tr.translate, "gen/Routes_gen.v")
     ctx.prove("Props/C20.v")
     stats: dict = {"status_codes": {}, "changed": {}, "api_calls": {}, "api_outcomes": {}, "requests_per_route": {},
@@ -693,6 +701,10 @@ def main(ctx: Ctx) -> int:
     ctx.notes["model"] = {"queue_view_shape": info.get("queue_view_shape", "(default)"), "shape_code": shape_code,
                           "qv_restoring": bool(restoring), "routes_ok": bool(table_ok), "generated_get_routes": n_gen,
                           "non_read_methods_per_route": mvals[1][0]}
+    shape_degraded = bool(info.get("degraded") or (info.get("queue_view_info") or {}).get("degraded"))
+    if shape_degraded and not info.get("degraded"):
+        ctx.log("queue_view shape not recognised (default shape used, the read-out decides):", info["queue_view_info"]["degraded"])
+    suspects = set(info.get("suspect_get_paths") or [])
     reached = set(info.get("api_methods_reached_by_get") or [])
     if not reached:      # degraded translator: take the default table's set
         reached = set(re.findall(r"\b(A[A-Z][A-Za-z]+)\b", open(os.path.join(os.path.dirname(os.path.dirname(os.path.dirname(
@@ -712,11 +724,13 @@ def main(ctx: Ctx) -> int:
                 n_eval += 1
                 distinct.add((kind, name))
                 stats.setdefault("witnesses", {})[f"{kind}:{name}"] = "unchanged" if ok else "changed"
+        # ---- (2b) the queue view on EVERY small state: queue length <= L, every subset of purged records, every limit
+        n_eval += run_queue_view_enumeration(ctx, scratch, client, 4 if ctx.thorough else 3, stats, qv_cases, distinct)
         # ---- (3) API level
-        n_eval += run_broker_sequences(ctx, scratch, 120 if ctx.thorough else 30, stats)
-        n_states = 10 if ctx.thorough else 3
+        n_eval += run_broker_sequences(ctx, scratch, 400 if ctx.thorough else 30, stats)
+        n_states = 24 if ctx.thorough else 3
         flavours = ["long", "purged", "mixed", "plain"]
-        per_route = 10 if ctx.thorough else 4
+        per_route = 12 if ctx.thorough else 4
         for si in range(n_states):
             flavour = flavours[si % len(flavours)]
             ops = gen_ops(ctx.rng, ctx.rng.randint(10, 40 if ctx.thorough else 25), flavour)
@@ -729,7 +743,9 @@ def main(ctx: Ctx) -> int:
                 n_eval += run_api_level(ctx, w, reached, stats)
                 # ---- (4) every live GET route
                 for (m, path, mod, fn, robj) in live_get:
-                    urls = gen_requests(ctx.rng, w, path, robj, mod, per_route + (6 if path == "/broker/queue" else 0))
+                    sus = path in suspects
+                    urls = gen_requests(ctx.rng, w, path, robj, mod,
+                                        per_route + (6 if path == "/broker/queue" or sus else 0), suspect=sus)
                     for url in urls:
                         request_and_judge(ctx, w, client, path, url, stats,
                                           {"kind": "route", "backend": kind, "ops": w.history}, qv_cases)
@@ -747,7 +763,7 @@ def main(ctx: Ctx) -> int:
                 mism += 1
                 detail = (f"{c['backend']}: GET {c['url']} queue {c['queue']} records {c['records']}: implementation -> "
                           f"{c['impl_after']} (rendered={c['impl_ok']}), model of queue_view -> {mq} (rendered={mok})")
-                if info.get("degraded"):
+                if shape_degraded:
                     ctx.notes.setdefault("queue_view_model_mismatch_translator_degraded", []).append(detail)
                 else:
                     ctx.violation("queue-view:model-mismatch", detail,
@@ -759,13 +775,14 @@ def main(ctx: Ctx) -> int:
             ch = [c for c in qv_cases if c["queue"] != c["impl_after"]][:1] or qv_cases[:1]
             ctx.sample({"queue_view": {k: ch[0][k] for k in ("backend", "url", "queue", "records", "impl_after", "impl_ok")}})
         # a restoring verdict of the proof and a changed queue on the implementation contradict each other
-        if restoring and not info.get("degraded") and stats["queue_view_cases"]["impl_changed"]:
+        if restoring and not shape_degraded and stats["queue_view_cases"]["impl_changed"]:
             ctx.notes["proof_says_restoring_but_impl_changed"] = True
         if ctx.thorough:
             stats["translator_self_test"] = translator_self_test(scratch)
     finally:
         world.rm_scratch(scratch)
     ctx.count(n_eval, len(distinct))
+    write_known_replays(ctx)
     ctx.notes["distribution"] = stats
     ctx.notes["live_get_routes"] = len(live_get)
     ctx.assumptions += [
@@ -785,6 +802,53 @@ def main(ctx: Ctx) -> int:
              "parameters (existing, record-purged, unknown, malformed ids; limits around the queue length); + every read-only "
              "classified API method on every state; + broker op sequences vs prim; + every queue-view request vs qv_run gen_qv. "
              "distinct_nontrivial = distinct (backend, url) requests")
+
+
+def run_queue_view_enumeration(ctx: Ctx, scratch: str, client, max_len: int, stats: dict, qv_cases: list, distinct: set) -> int:
+    """complete enumeration: queue of L <= max_len fresh invocations x every subset of them with the stored record
+    purged x every limit in -1 .. L+1, on both backends (the model is compared on each case in step 5)."""
+    import itertools
+    n = 0
+    for kind in ("mem", "sqlite"):
+        w = World(kind, scratch)
+        w.activate()
+        for L in range(max_len + 1):
+            for missing in itertools.product((False, True), repeat=L):
+                for lim in range(-1, L + 2):
+                    w.app.broker.purge()
+                    w.history = [["purge", "broker"]]
+                    first = len(w.ids)
+                    for _ in range(L):
+                        w.op(("call", "ok"))
+                    for k, gone in enumerate(missing):
+                        if gone:
+                            w.op(("drop_record", first + k))
+                    # replayable from scratch: the same calls on a fresh world give the same shape of state
+                    base = {"kind": "route", "backend": kind,
+                            "ops": [["call", "ok"]] * L + [["drop_record", k] for k, g in enumerate(missing) if g]}
+                    request_and_judge(ctx, w, client, "/broker/queue", f"/broker/queue?limit={lim}", stats, base, qv_cases)
+                    distinct.add((kind, "enum", L, missing, lim))
+                    n += 1
+        stats["queue_view_enumeration"] = {"max_queue_length": max_len, "cases_per_backend": n // (1 if kind == "mem" else 2),
+                                           "complete": True}
+    return n
+
+
+def write_known_replays(ctx: Ctx) -> None:
+    """a known finding is reproduced on every run; keep its replay next to the violations' ones"""
+    import hashlib
+    from harness.common import REPLAYS
+    os.makedirs(REPLAYS, exist_ok=True)
+    files = []
+    for k in ctx.known_hits:
+        h = hashlib.sha256(k["key"].encode()).hexdigest()[:8]
+        path = os.path.join(REPLAYS, f"{ctx.prop}-known-{h}.json")
+        with open(path, "w") as f:
+            json.dump({"property": ctx.prop, "key": k["key"], "what": k["what"], "replay": k["replay"], "known_finding": True,
+                       "replay_cmd": f"./check {ctx.prop} --replay {path}"}, f, indent=1, default=str)
+        files.append(path)
+    if files:
+        ctx.notes["known_finding_replays"] = files
 
 
 def translator_self_test(scratch: str) -> dict:
@@ -821,6 +885,7 @@ def translator_self_test(scratch: str) -> dict:
 
 def replay(ctx: Ctx, path: str) -> int:
     world.quiet()
+    warnings.filterwarnings("ignore")
     rp = json.load(open(path))["replay"]
     scratch = world.scratch_dir()
     try:
